@@ -47,7 +47,21 @@ def scenarios(ctx):
     req = b"GET /z HTTP/1.1\r\nHost: h\r\n\r\n"
     out = []
 
-    def add(name, res, body_off, body_len, expect, cfg, cls, cuts="auto", wirelen=None):
+    def full_buffer_offsets(comp, wbits):
+        """compressed offsets c at which the decoder, fed comp[:c], has produced an exact multiple of the 8192-byte output buffer (GZIP_BUF_SIZE): the first and
+        the last such c for every multiple.  A cut there ends a decompressor call with the output buffer exactly full."""
+        d = zlib.decompressobj(wbits)
+        n, first, last = 0, {}, {}
+        for c in range(1, len(comp) + 1):
+            try:
+                n += len(d.decompress(comp[c - 1:c]))
+            except zlib.error:
+                break
+            if n and n % 8192 == 0:
+                first.setdefault(n, c); last[n] = c
+        return sorted(set(first.values()) | set(last.values()))
+
+    def add(name, res, body_off, body_len, expect, cfg, cls, cuts="auto", wirelen=None, extra=()):
         """res: response bytes; compressed body occupies res[body_off:body_off+body_len]; expect: expected entity bytes (None = no expectation)"""
         exp = [("<", 0, expect, wirelen)] if expect is not None else []
         c = dict(cfg, wf=1, n=1, cls=cls, dump=0)
@@ -62,6 +76,7 @@ def scenarios(ctx):
                 pts = sorted(set(head + rnd.sample(pts, (12 if q else 300))))
         elif cuts == "few":
             pts = sorted(set(pts[:3] + rnd.sample(pts, min(len(pts), 3))))
+        pts = sorted(set(pts) | {x for x in extra if 0 < x < len(res)})
         for cpos in pts:
             out.append(Scn("%s.c%d" % (name, cpos), [(">", req), ("<", res[:cpos]), ("<", res[cpos:])], c, (), exp))
         if len(res) < 3000:
@@ -78,6 +93,25 @@ def scenarios(ctx):
                 off = res.index(b"\r\n\r\n") + 4
                 cfg = {"lzmalayers": 1} if cn == "lzma" else {}
                 add("dec/%s.%s.%s" % (pn, cn, fr), res, off, len(res) - off, p, cfg, "decomp", wirelen=len(comp) if fr != "chunked" else None)
+    # payloads larger than the decompressor's output buffer, cut where the buffer is exactly full at the end of a call (and one byte around): random
+    # (incompressible) bytes so that such offsets exist for every multiple of the buffer size; deflate levels 0 (stored blocks), 1 and 9; also carried in
+    # HTTP chunks that END at such an offset
+    big = bytes(random.Random(11).randrange(256) for _ in range(20000 if q else 70000))
+    for cn, label, wbits, mk in (("gzip", b"gzip", 31, lambda lvl: (lambda c: c.compress(big) + c.flush())(zlib.compressobj(lvl, zlib.DEFLATED, 31))),
+                                 ("deflate_zlib", b"deflate", 15, lambda lvl: zlib.compress(big, lvl)),
+                                 ("deflate_raw", b"deflate", -15, lambda lvl: (lambda c: c.compress(big) + c.flush())(zlib.compressobj(lvl, zlib.DEFLATED, -15)))):
+        for lvl in (0, 1, 9):
+            comp = mk(lvl)
+            offs = full_buffer_offsets(comp, wbits)
+            res = A(200, hdrs=[(b"Content-Encoding", label)], body=comp)
+            off = res.index(b"\r\n\r\n") + 4
+            ext = sorted({off + o + dlt for o in offs for dlt in (-1, 0, 1)})
+            add("dec/big.%s.l%d.cl" % (cn, lvl), res, off, len(comp), big, {}, "decomp", cuts="few", wirelen=len(comp), extra=ext)
+            if offs:
+                parts = [comp[a:b2] for a, b2 in zip([0] + offs, offs + [len(comp)]) if b2 > a]
+                res = A(200, hdrs=[(b"Content-Encoding", label)], chunked=parts)
+                off = res.index(b"\r\n\r\n") + 4
+                add("dec/big.%s.l%d.chunked" % (cn, lvl), res, off, len(res) - off, big, {}, "decomp", cuts="few")
     text = b"The quick brown fox jumps over the lazy dog. " * 3
     # two layers
     two = gzip.compress(gzip.compress(text))
